@@ -6,7 +6,7 @@ set -e
 WT="$1"; shift
 SV="/tmp/sv/$(basename $(dirname $WT))"
 mkdir -p "$SV"
-rsync -a --delete --exclude work --exclude harness/target /verif/ "$SV/verif/"
+rsync -a --delete --exclude work --exclude harness/target /verif/ "$SV/verif/" || [ $? -eq 24 ]   # 24: a file vanished while a build ran in /verif
 cd "$SV/verif"
 grep -rl '/repo' harness/Cargo.toml harness/src | xargs sed -i "s#/repo#$WT#g"
 for id in "$@"; do
